@@ -14,9 +14,16 @@ EXPLANATION = ("Timestamp formatter tables. R1 (fractional seconds, exhaustive o
                "case formats the confirmed quantity (H,k: hours; M: minutes; S: seconds; I,l: 12-hour form; s: the cached epoch); every "
                "modifier is two characters long (the splitter skips 2). R3: %X ends in a throw; a second distinct fractional "
                "specifier ends in a throw; a repeated one is rejected as well (the remainder after the first occurrence is searched) "
-               "— the rule that found the pinned tree's defect.")
-NOT_DECIDED = ("Equality with strftime for every instant, zone and sequence (DST, noon/midnight and quarter-hour recalculation, "
-               "backwards timestamps): value properties, left to dynamic techniques.")
+               "— the rule that found the pinned tree's defect. R4 (coherence of the strftime cache in StringFromTime::format_timestamp): "
+               "a timestamp older than the cached one is rendered by a direct strftime of that timestamp and leaves the cache alone; the "
+               "cache is rebuilt when timestamp >= next recalculation point (non-strict: the point itself starts the new period), "
+               "cleared before it is repopulated from the current timestamp; every Timezone enumerator sets the next point, local time "
+               "on a grid that divides 15 minutes (every UTC offset in use is a multiple of 15 minutes), GMT on noon/midnight; the "
+               "elapsed seconds are taken against the cached timestamp before it is overwritten; the populate step converts the same "
+               "timestamp with the conversion that matches the zone and caches hour*3600 + min*60 + sec.")
+NOT_DECIDED = ("Equality with strftime for every instant, zone and sequence as values (DST shifts, historical zone offsets that are not "
+               "multiples of 15 minutes, the arithmetic of the hour/minute/second patching over all elapsed times): left to dynamic "
+               "techniques. R4 decides the shape of the cache's state machine, not its output.")
 EXHAUSTIVE = "the AdditionalSpecifier and format_type enumerators"
 ASSUMPTIONS = []
 TF = "quill::detail::TimestampFormatter"
@@ -28,6 +35,7 @@ def run(ctx):
     r1(ctx, facts)
     r2(ctx, facts)
     r3(ctx, facts)
+    r4(ctx, facts)
 
 
 def enum_const(n, prefix):
@@ -100,6 +108,7 @@ def r1(ctx, facts):
     finits = f.var_inits()
     fdecls = f.var_decls()
     per = {}
+    bases = set()
     for bid, b in fg.blocks.items():
         cond = fg.term_cond(bid)
         if cond is None:
@@ -111,7 +120,7 @@ def r1(ctx, facts):
         after = [fg.node_ast(p) for p in straight_after(fg, bid, "T")]
         width, div, wf = None, None, False
         for n in after:
-            if is_call(n, r"::append\b") and is_this_field(call_obj(n), "_formatted_date"):
+            if is_call(n, r"::append\b") and is_this_field(call_obj(n), "_formatted_date") and not wf:
                 v = var_ref(n["args"][0])
                 src = fdecls.get(v, {}).get("init") if v is not None else n["args"][0]
                 lits = [x for x in walk(src) if x["k"] == "StringLiteral"] if isnode(src) else []
@@ -120,22 +129,33 @@ def r1(ctx, facts):
             if is_call(n, r"::_write_fractional_seconds$"):
                 wf = True
                 v = var_ref(n["args"][0])
-                e = strip(finits.get(v), casts=True) if v in finits else None
+                e = strip(finits.get(v), casts=True) if v in finits else strip(n["args"][0], casts=True)
                 if isnode(e) and e["k"] == "BinaryOperator" and e["op"] == "/":
                     div = const_val(e["rhs"])
                     base = var_ref(e["lhs"])
                 else:
                     div = 1
-                    base = v
-                per.setdefault("base", set()).add(base)
-        per[ev] = (ename, width, div, wf)
+                    base = var_ref(e) if v is None else v
+                bases.add(base)
+        if wf:
+            per.setdefault(ev, []).append((ename, width, div, bid))
     for (n, v) in specs:
-        ename, width, div, wf = per.get(v, (None, None, None, False))
-        ok = wf and width is not None and width > 0 and div is not None and div > 0 and \
-            abs(math.log10(div) - round(math.log10(div))) < 1e-9 and width + round(math.log10(div)) == 9
-        ctx.ob("C13.R1d", "format_timestamp:%s:width-divisor" % n, ok,
-               "for %s a zero field of width %s is appended and the nanoseconds are divided by %s: width + log10(divisor) must be 9" % (n, width, div), fn=f)
-    bases = per.get("base", set())
+        inst = per.get(v, [])
+        if not inst:
+            ctx.ob("C13.R1d", "format_timestamp:%s:width-divisor" % n, False, "no branch writes the fractional digits for %s" % n, fn=f)
+        for k, (ename, width, div, bid) in enumerate(sorted(inst, key=lambda t: t[3])):
+            site = "format_timestamp:%s:width-divisor" % n + ("" if len(inst) == 1 else "#%d" % k)
+            if width is None:
+                ctx.ob("C13.R1h", "format_timestamp:%s:zero-field-before-digits" % n + ("" if len(inst) == 1 else "#%d" % k), False,
+                       "a branch for %s writes the fractional digits without first appending the zero field: the digits are right-aligned "
+                       "over whatever the reused buffer still holds (a shorter fraction keeps the previous statement's leading digits)" % n, fn=f)
+                continue
+            ctx.ob("C13.R1h", "format_timestamp:%s:zero-field-before-digits" % n + ("" if len(inst) == 1 else "#%d" % k), True,
+                   "the zero field is appended in the same branch before the digits of %s are right-aligned into it" % n, fn=f)
+            ok = width > 0 and div is not None and div > 0 and \
+                abs(math.log10(div) - round(math.log10(div))) < 1e-9 and width + round(math.log10(div)) == 9
+            ctx.ob("C13.R1d", site, ok,
+                   "for %s a zero field of width %s is appended and the nanoseconds are divided by %s: width + log10(divisor) must be 9" % (n, width, div), fn=f)
     ok = len(bases) == 1 and None not in bases
     if ok:
         e = strip(finits.get(list(bases)[0]), casts=True)
@@ -158,17 +178,28 @@ def r1(ctx, facts):
     w = facts.need(TF + "::_write_fractional_seconds", "A")[0]
     mc = w.calls(r"^(std::)?memcpy$")
     ok = False
+
+    def is_end_of_field(e):
+        """size() of the date buffer, or a member that is only ever assigned that size() (in format_timestamp, after the zero append)"""
+        if any(is_call(x, r"::size$") and is_this_field(call_obj(x), "_formatted_date") for x in walk(e)):
+            return True
+        e = strip(e, casts=True)
+        fld = field_name(e) if isnode(e) and e["k"] == "MemberExpr" else None
+        if not fld:
+            return False
+        asg = [a for fn_ in (f, w) for a in fn_.walk() if a["k"] == "BinaryOperator" and a["op"] == "=" and is_this_field(a["lhs"], fld)]
+        return bool(asg) and all(is_call(strip(a["rhs"], casts=True), r"::size$") and is_this_field(call_obj(strip(a["rhs"], casts=True)), "_formatted_date")
+                                 for a in asg)
     if mc:
         d = mc[0]["args"][0]
         idx = [x for x in walk(d) if is_call(x, r"operator\[\]")]
         if idx:
             e = strip(idx[0]["args"][1], casts=True)
-            ok = isnode(e) and e["k"] == "BinaryOperator" and e["op"] == "-" and \
-                any(is_call(x, r"::size$") and is_this_field(call_obj(x), "_formatted_date") for x in walk(e["lhs"])) and \
+            ok = isnode(e) and e["k"] == "BinaryOperator" and e["op"] == "-" and is_end_of_field(e["lhs"]) and \
                 any(is_call(x, r"format_int::size$") for x in walk(e["rhs"])) and \
                 any(is_call(x, r"format_int::size$") for x in walk(mc[0]["args"][2])) and any(is_call(x, r"format_int::data$") for x in walk(mc[0]["args"][1]))
     ctx.ob("C13.R1f", "_write_fractional_seconds:right-aligned", ok,
-           "the digits overwrite the tail of the zero field: destination = size() - number of digits, length = number of digits", fn=w)
+           "the digits overwrite the tail of the zero field: destination = end of the field - number of digits, length = number of digits", fn=w)
 
 
 def r2(ctx, facts):
@@ -329,3 +360,174 @@ def r3(ctx, facts):
     ctx.ob("C13.R3c", "TimestampFormatter::ctor:repeated-specifier-rejected", ok,
            "the part of the pattern after the fractional specifier is searched for a further fractional specifier and a hit throws: "
            "nothing reaches strftime as a raw '%Q..' (a repeated specifier is 'more than one')", fn=ctor)
+
+
+def _literals_through(facts, fn, depth=2):
+    out = [x["val"] for x in fn.walk() if x["k"] == "IntegerLiteral"]
+    if depth > 0:
+        for c in fn.calls():
+            cs = short(c.get("callee") or "")
+            if cs.startswith(SF + "::"):
+                for g_ in facts.fn_re("^" + __import__("re").escape(cs) + "$", "A")[:1]:
+                    out += _literals_through(facts, g_, depth - 1)
+    return out
+
+
+def r4(ctx, facts):
+    f = facts.need(SF + "::format_timestamp", "A")[0]
+    g = f.g
+    ts = f.rec["params"][0]["did"]
+    tkey = "v%d" % ts
+    back = recalc = None
+    zone = {}
+    for bid, b in g.blocks.items():
+        c = g.term_cond(bid)
+        nc = norm_cmp(c) if c is not None else None
+        if not nc:
+            continue
+        if nc[0] in ("<", "<=") and {nc[1], nc[2]} == {tkey, "this._cached_timestamp"}:
+            back = (bid, nc)
+        if nc[0] in ("<", "<=") and {nc[1], nc[2]} == {tkey, "this._next_recalculation_timestamp"}:
+            recalc = (bid, nc)
+        if nc[0] == "==" and nc[2] == "this._time_zone" and nc[1].startswith("quill::Timezone::"):
+            zone[nc[1].split("::")[-1]] = bid
+    if not back or not recalc:
+        raise AnalysisBroken("StringFromTime::format_timestamp: backwards guard / recalculation guard not found")
+    # R4a: backwards timestamps
+    bid, nc = back
+    lab = "T" if (nc[0] == "<" and nc[1] == tkey) else None
+    ok = lab is not None
+    why = "guard is 'timestamp < cached'"
+    if ok:
+        reg = g.reach([tnode(g, bid)], avoid_edges=[(bid, other(lab))])
+        only = g.reach([tnode(g, bid)], avoid_edges=[(bid, lab)])
+        excl = [p for p in reg if p not in only]
+        st = [n for n in f.calls(r"::_safe_strftime$") if any(p in excl for p in g.positions(n))]
+        arg_ok = bool(st) and all(var_ref(n["args"][1]) == ts for n in st)
+        writes = [a for a in f.walk() if ((a["k"] in ("BinaryOperator", "CompoundAssignOperator") and a.get("op", "").endswith("=") and a.get("op") not in ("==", "!=", "<=", ">=")
+                                           and isnode(a.get("lhs")) and field_name(a["lhs"]) in ("_cached_timestamp", "_cached_seconds", "_next_recalculation_timestamp"))
+                                          or (is_call(a) and is_this_field(call_obj(a), "_pre_formatted_ts") and not (a.get("sig") or "").rstrip().endswith("const")))
+                  and any(p in excl for p in g.positions(a))]
+        dom = all(g.dominates([tnode(g, bid)], p) for p in npos(f, [a for a in f.walk() if a["k"] == "CompoundAssignOperator" and is_this_field(a.get("lhs"), "_cached_seconds")]))
+        ok = arg_ok and not writes and dom
+        why = "direct strftime of the given timestamp: %s, cache untouched on that arm: %s, guard precedes the incremental update: %s" % (arg_ok, not writes, dom)
+    ctx.ob("C13.R4a", "StringFromTime::format_timestamp:backwards-timestamp", ok,
+           "a timestamp older than the cached one is rendered by strftime directly and does not disturb the cache (%s)" % why, fn=f)
+    # R4b: recalculation guard non-strict, clear before populate, populate from the current timestamp
+    bid, nc = recalc
+    nonstrict = (nc[0] == "<=" and nc[1] == "this._next_recalculation_timestamp")
+    lab = "T" if (nc[1] == "this._next_recalculation_timestamp") else "F"
+    ctx.ob("C13.R4b", "StringFromTime::format_timestamp:recalculate-at-the-point", nonstrict,
+           "the cache is rebuilt when timestamp >= the recalculation point (the point is the first second of the new period; "
+           "normalised test: %s %s %s)" % (nc[1].replace(tkey, "timestamp"), nc[0], nc[2].replace(tkey, "timestamp")), fn=f)
+    reg = set(g.reach([tnode(g, bid)], avoid_edges=[(bid, other(lab))])) - set(g.reach([tnode(g, bid)], avoid_edges=[(bid, lab)]))
+    pop = [n for n in f.calls(r"::_populate_pre_formatted_string_and_cached_indexes$")]
+    pp = npos(f, pop)
+    clr1 = npos(f, [c for c in f.calls(r"::clear$") if is_this_field(call_obj(c), "_pre_formatted_ts")])
+    clr2 = npos(f, [c for c in f.calls(r"::clear$") if is_this_field(call_obj(c), "_cached_indexes")])
+    ok = bool(pp) and all(p in reg for p in pp) and bool(clr1) and bool(clr2) and all(g.dominates(clr1, p) and g.dominates(clr2, p) for p in pp) and \
+        all(var_ref(n["args"][0]) == ts for n in pop) and not g.exists_path([tnode(g, bid)], [g.exit_node], avoid_nodes=pp, avoid_edges=[(bid, other(lab))])
+    ctx.ob("C13.R4c", "StringFromTime::format_timestamp:rebuild", ok,
+           "on the recalculation arm the pre-formatted string and the patch positions are cleared, then repopulated from the current "
+           "timestamp, on every path", fn=f)
+    # R4d: every zone sets the next point
+    en = facts.enum("quill::Timezone", "A")
+    if not en:
+        raise AnalysisBroken("quill::Timezone not found")
+    asg = [a for a in f.walk() if a["k"] == "BinaryOperator" and a["op"] == "=" and is_this_field(a["lhs"], "_next_recalculation_timestamp")]
+    ctx.floor("C13.R4d", "Timezone enumerators", len(en["enumerators"]), 2)
+    for (zn, zv) in en["enumerators"]:
+        zb = zone.get(zn)
+        mine = []
+        if zb is not None:
+            zr = set(g.reach([tnode(g, zb)], avoid_edges=[(zb, "F")])) - set(g.reach([tnode(g, zb)], avoid_edges=[(zb, "T")]))
+            mine = [a for a in asg if any(p in zr for p in g.positions(a)) and all(p in reg for p in g.positions(a))]
+        ok = len(mine) == 1
+        grid = None
+        if ok:
+            call = strip(mine[0]["rhs"], casts=True)
+            ok = is_call(call) and any(var_ref(x) == ts for x in call["args"])
+            if ok:
+                cs = short(call["callee"])
+                cal = facts.fn_re("^" + __import__("re").escape(cs) + "$", "A")
+                if not cal:
+                    raise AnalysisBroken("callee %s of the recalculation point not analysed" % cs)
+                lits = _literals_through(facts, cal[0])
+                ops = set(x.get("op") for c_ in [cal[0]] + [h for cc in cal[0].calls() for h in facts.fn_re("^" + __import__("re").escape(short(cc.get("callee") or "")) + "$", "A")[:1]
+                                                             if short(cc.get("callee") or "").startswith(SF + "::")]
+                          for x in c_.walk() if x["k"] == "BinaryOperator")
+                period = 900 if zn == "LocalTime" else 43200
+                if lits and len(set(lits)) == 1 and {"/", "*", "+"} <= ops:
+                    grid = lits[0]
+                    ok = grid > 0 and period % grid == 0
+                    why = "next multiple of %d s; must divide %d s" % (grid, period)
+                elif zn != "LocalTime" and any(is_call(x, r"gmtime_rs$") for x in cal[0].walk()):
+                    # calendar form: tm_hour < 12 ? 11:59:59 : 23:59:59, + 1 s, converted back with timegm
+                    hours = sorted(const_val(a["rhs"]) for a in cal[0].walk() if a["k"] == "BinaryOperator" and a["op"] == "=" and
+                                   isnode(a["lhs"]) and strip(a["lhs"]).get("mname") == "tm_hour")
+                    mins = set(const_val(a["rhs"]) for a in cal[0].walk() if a["k"] == "BinaryOperator" and a["op"] == "=" and
+                               isnode(a["lhs"]) and strip(a["lhs"]).get("mname") in ("tm_min", "tm_sec"))
+                    cmp12 = any((norm_cmp(x) or (None,))[0] == "<" and "12" in (norm_cmp(x)[1], norm_cmp(x)[2]) for x in cal[0].walk() if x["k"] == "BinaryOperator")
+                    plus1 = any(x["k"] == "BinaryOperator" and x["op"] == "+" and 1 in (const_val(x["lhs"]), const_val(x["rhs"])) for x in cal[0].walk())
+                    tg = any(is_call(x, r"timegm$") for x in cal[0].walk())
+                    ok = hours == [11, 23] and mins == {59} and cmp12 and plus1 and tg
+                    why = "calendar form: hour<12 -> 11:59:59, else 23:59:59, +1 s via timegm (hours %s, min/sec %s, +1: %s)" % (hours, sorted(mins), plus1)
+                else:
+                    raise AnalysisBroken("recalculation point for %s: %s has a shape no accepted idiom covers" % (zn, cs))
+            else:
+                why = "the next point is not computed from the current timestamp"
+        else:
+            why = "%d assignment(s) of the next recalculation point under the %s test" % (len(mine), zn)
+        ctx.ob("C13.R4d", "StringFromTime::format_timestamp:next-point:%s" % zn, ok,
+               "zone %s: %s%s" % (zn, why, " — every UTC offset in use is a multiple of 15 minutes, so local midnight/noon always fall on a "
+                                  "15-minute boundary of epoch time and on no coarser grid" if zn == "LocalTime" else ""), fn=f)
+    # R4e: elapsed seconds against the cached timestamp before it is overwritten
+    finits = f.var_inits()
+    upd = [a for a in f.walk() if a["k"] == "CompoundAssignOperator" and a["op"] == "+=" and is_this_field(a["lhs"], "_cached_seconds")]
+    set_ct = [a for a in f.walk() if a["k"] == "BinaryOperator" and a["op"] == "=" and is_this_field(a["lhs"], "_cached_timestamp")]
+    ok = len(upd) == 1 and len(set_ct) == 1 and var_ref(set_ct[0]["rhs"]) == ts
+    if ok:
+        dv = var_ref(strip(upd[0]["rhs"], casts=True))
+        e = strip(finits.get(dv), casts=True) if dv in finits else strip(upd[0]["rhs"], casts=True)
+        ok = isnode(e) and e["k"] == "BinaryOperator" and e["op"] == "-" and var_ref(e["lhs"]) == ts and is_this_field(e["rhs"], "_cached_timestamp")
+        if ok and dv in finits:
+            dpos = [p for p in g.pos_of(lambda n: isnode(n) and n.get("k") == "Var" and n.get("did") == dv)] or g.positions(finits[dv])
+            ok = bool(dpos) and all(g.dominates(dpos, p) for p in g.positions(set_ct[0])) and \
+                not g.exists_path(g.positions(set_ct[0]), dpos)
+    ctx.ob("C13.R4e", "StringFromTime::format_timestamp:elapsed-seconds", ok,
+           "the seconds added to the cached time of day are (timestamp - cached timestamp), computed before the cached timestamp is "
+           "replaced by the current one", fn=f)
+    # R4f: populate
+    pf = facts.need(SF + "::_populate_pre_formatted_string_and_cached_indexes", "A")[0]
+    pg = pf.g
+    pts = pf.rec["params"][0]["did"]
+    set_ct = [a for a in pf.walk() if a["k"] == "BinaryOperator" and a["op"] == "=" and is_this_field(a["lhs"], "_cached_timestamp")]
+    ok1 = len(set_ct) == 1 and var_ref(set_ct[0]["rhs"]) == pts
+    conv = {}
+    for bid, b in pg.blocks.items():
+        c = pg.term_cond(bid)
+        nc = norm_cmp(c) if c is not None else None
+        if nc and nc[0] == "==" and nc[2] == "this._time_zone" and nc[1].startswith("quill::Timezone::"):
+            after = [pg.node_ast(p) for p in straight_after(pg, bid, "T")]
+            conv[nc[1].split("::")[-1]] = [short(n["callee"]).split("::")[-1] for n in after if is_call(n, r"(localtime_rs|gmtime_rs)$")]
+    want = {"LocalTime": ["localtime_rs"], "GmtTime": ["gmtime_rs"]}
+    ok2 = all(conv.get(z) == want.get(z) for (z, _) in en["enumerators"] if z in want) and all(z in want for (z, _) in en["enumerators"])
+    cs_asg = [a for a in pf.walk() if a["k"] == "BinaryOperator" and a["op"] == "=" and is_this_field(a["lhs"], "_cached_seconds")]
+    ok3 = False
+    if len(cs_asg) == 1:
+        terms = {}
+        for m in walk(cs_asg[0]["rhs"]):
+            if m["k"] == "BinaryOperator" and m["op"] == "*":
+                fld = [x.get("mname") for x in walk(m) if x["k"] == "MemberExpr" and str(x.get("mname", "")).startswith("tm_")]
+                k = const_val(m["rhs"]) if const_val(m["rhs"]) is not None else const_val(m["lhs"])
+                if fld:
+                    terms[fld[0]] = k
+        flds = [x.get("mname") for x in walk(cs_asg[0]["rhs"]) if x["k"] == "MemberExpr" and str(x.get("mname", "")).startswith("tm_")]
+        ok3 = terms == {"tm_hour": 3600, "tm_min": 60} and sorted(flds) == ["tm_hour", "tm_min", "tm_sec"] and \
+            not any(m["k"] == "BinaryOperator" and m["op"] in ("-", "/", "%") for m in walk(cs_asg[0]["rhs"]))
+    st = pf.calls(r"::_safe_strftime$")
+    ok4 = bool(st) and all((is_this_field(n["args"][1], "_cached_timestamp") or var_ref(n["args"][1]) == pts) and is_this_field(n["args"][2], "_time_zone") for n in st)
+    ctx.ob("C13.R4f", "StringFromTime::_populate:same-instant-same-zone", ok1 and ok2 and ok3 and ok4,
+           "the cache is rebuilt for the timestamp passed in (cached timestamp := it: %s), broken down with the conversion of the configured "
+           "zone (%s), the cached time of day is tm_hour*3600 + tm_min*60 + tm_sec (%s) and every part is rendered by strftime for the "
+           "same instant and zone (%s)" % (ok1, conv, ok3, ok4), fn=pf)
